@@ -850,16 +850,17 @@ Definition irq_full_type : list selection :=
       [ irq_l irk_name; irq_l irk_description; irq_l irk_isDeprecated; irq_l irk_deprecationReason ];
     irq_f irk_possibleTypes [SSpread irk_TypeRef []] ].
 
-Definition irq_operation : list selection :=
-  [ irq_f irk_uuschema
-      [ irq_l irk_description;
-        irq_f irk_queryType [irq_l irk_name];
-        irq_f irk_mutationType [irq_l irk_name];
-        irq_f irk_subscriptionType [irq_l irk_name];
-        irq_f irk_types [SSpread irk_FullType []];
-        irq_f irk_directives
-          [ irq_l irk_name; irq_l irk_description; irq_l irk_isRepeatable; irq_l irk_locations;
-            irq_fd irk_args [SSpread irk_InputValue []] ] ] ].
+Definition irq_schema_sub : list selection :=
+  [ irq_l irk_description;
+    irq_f irk_queryType [irq_l irk_name];
+    irq_f irk_mutationType [irq_l irk_name];
+    irq_f irk_subscriptionType [irq_l irk_name];
+    irq_f irk_types [SSpread irk_FullType []];
+    irq_f irk_directives
+      [ irq_l irk_name; irq_l irk_description; irq_l irk_isRepeatable; irq_l irk_locations;
+        irq_fd irk_args [SSpread irk_InputValue []] ] ].
+
+Definition irq_operation : list selection := [ irq_f irk_uuschema irq_schema_sub ].
 
 Definition ir_standard_query : document :=
   [ DOperation OpQuery (Some irk_IntrospectionQuery) [] [] irq_operation;
